@@ -32,7 +32,8 @@ LEVEL = {
                "source (window: pairwise); (R05.2) at most one invocation of each per-item callable between consecutive "
                "pulls; (R05.3) merge pulls a source's next head only after yielding its current head; (R05.4) all/any "
                "stop at the deciding element without another pull; (R05.5) islice ends right after its last item; "
-               "(R05.6) multi-source tools pull in argument order.",
+               "(R05.6) multi-source tools pull in argument order; (R05.7) a tee child with buffered items yields them without "
+               "waiting for the lock.",
     "not_decided": "identity of the complete interleaved event trace (pulls, end-of-source detections, callable "
                    "invocations, yields) with the stdlib's for every input and step count.",
     "technique": "static analysis: pending-at-pull dataflow, path counting, short-circuit table by abstract evaluation",
